@@ -102,7 +102,8 @@ theorem exact_order {cls : List Cluster} {initial : Int} (h : WFIn cls initial) 
       ratio p.1 < ratio q.1 → p.2 ≤ q.2 :=
   fun p hp q hq hr => exact_order_le' h p hp q hq (le_of_lt hr)
 
-/-- E1: share, the Spec clause -/
+/-- E1: share with the bound of exactly ONE unit (stronger than the Spec clause, whose bound is
+`ratio q * (1 + 1/1024)`) -/
 theorem exact_share {cls : List Cluster} {initial : Int} (h : WFIn cls initial) :
     ∀ p ∈ live cls (rebalanceExact cls initial), ∀ q ∈ live cls (rebalanceExact cls initial),
       0 < ratio p.1 → ratio p.1 ≤ ratio q.1 →
@@ -201,17 +202,13 @@ theorem f32_order {cls : List Cluster} {initial : Int} (h : WFIn cls initial) (h
     ∀ p ∈ live cls (rebalance cls initial), ∀ q ∈ live cls (rebalance cls initial),
       ratio p.1 < ratio q.1 → p.2 ≤ q.2 := float_order' f32_rounding h hs
 
-/- FULL-STRENGTH share statement — FALSE for the binary32 model (and for the Go code),
-   even under `WFIn ∧ SmallLcm ∧ Exact24`, see `f32_share_counterexample`:
+/- The share bound of exactly one unit (`… ≤ ratio q.1`, what exact arithmetic meets,
+   `exact_share`) is FALSE for the binary32 model and for the Go code, even under
+   `WFIn ∧ SmallLcm ∧ Exact24`: see `strict_unit_share_fails`.  The Spec clause `specShare`
+   therefore allows `ratio q.1 * (1 + 1/1024)`: one unit of integer rounding + float error. -/
 
-   theorem f32_share (h : WFIn cls initial) (hs : SmallLcm cls) (he : Exact24 cls initial) :
-       ∀ p ∈ live cls (rebalance cls initial), ∀ q ∈ live cls (rebalance cls initial),
-         0 < ratio p.1 → ratio p.1 ≤ ratio q.1 →
-         |(p.2 : Rat) * ratio q.1 - (q.2 : Rat) * ratio p.1| ≤ ratio q.1
--/
-
-/-- **share**, what the error bound supports: the Spec inequality with `ratio q` relaxed to
-`ratio q * (1 + 1/1024)` (no hypothesis on the lcm needed). -/
+/-- **share**, the Spec clause (bound `ratio q * (1 + 1/1024)`), no hypothesis on the lcm
+needed: truncation costs one unit, the at most 15 roundings cost `< 2·257/2^20 < 1/1024`. -/
 theorem f32_share_partial {cls : List Cluster} {initial : Int} (h : WFIn cls initial) :
     ∀ p ∈ live cls (rebalance cls initial), ∀ q ∈ live cls (rebalance cls initial),
       0 < ratio p.1 → ratio p.1 ≤ ratio q.1 →
@@ -232,39 +229,35 @@ theorem f32_near_exact {cls : List Cluster} {initial : Int} (h : WFIn cls initia
   · unfold rebalanceExact; rw [rebalanceWith_map, List.getElem?_map, List.getElem?_eq_getElem hi]
     simp [h2]
 
-/-- **the strict share clause fails for the binary32 model** (hence for `RebalanceWeight`,
+/-- **the bound of exactly one unit is false for binary32** (hence for `RebalanceWeight`,
 which agrees with the model bit for bit): weights 229/241/17 with 157/162/162 replicas,
-initial-weight 75.  `lcm = 25434`, `256·lcm < 2^24`, all conversions exact.  The ideal weight
-of the first group is `256·37098/37837 = 251 + 1/37837`; the float chain yields a value
-just below 251, truncated to 250, which is `1 + 1/37837` units below the proportional
-value: `|250·(241/162) − 256·(229/157)| = 37838/25434 > 37837/25434 = 241/162`.
-Exact arithmetic writes 251. -/
-theorem f32_share_counterexample :
+initial-weight 75.  `lcm = 25434`, `256·lcm < 2^24`, all conversions exact (`Exact24`).  The
+ideal weight of the first group is `256·37098/37837 = 251 + 1/37837`; the float chain yields
+a value just below 251, truncated to 250 (exact arithmetic writes 251), which is
+`1 + 1/37837` units below the proportional value:
+`256·(229/157) − 250·(241/162) = 37838/25434 > 37837/25434 = 241/162`.
+With the Spec bound `1 + 1/1024` the oracle accepts this output. -/
+theorem strict_unit_share_fails :
     WFIn wit 75 ∧ SmallLcm wit ∧ Exact24 wit 75 ∧
     rebalance wit 75 = [some 250, some 256, some 18] ∧
     rebalanceExact wit 75 = [some 251, some 256, some 18] ∧
-    specShare (⟨229, 157⟩, 250) (⟨241, 162⟩, 256) = false ∧
-    oracle wit (rebalance wit 75) = some "share" :=
+    ratio ⟨241, 162⟩ < (256 : Rat) * ratio ⟨229, 157⟩ - (250 : Rat) * ratio ⟨241, 162⟩ ∧
+    oracle wit (rebalance wit 75) = none :=
   ⟨wit_wf, wit_small.1, wit_small.2, by decide +kernel, by decide +kernel, by decide +kernel,
     by decide +kernel⟩
 
-/-- **E3 summary**: under `WFIn` and `256·lcm < 2^24` the only Spec clause that the binary32
-model can violate is `share` (and then by less than one part in 1024). -/
-theorem f32_oracle_partial {cls : List Cluster} {initial : Int} (h : WFIn cls initial)
-    (hs : SmallLcm cls) :
-    oracle cls (rebalance cls initial) = none ∨ oracle cls (rebalance cls initial) = some "share" := by
-  have hl : cls.length = (rebalance cls initial).length := (rebalanceWith_length _ _ _).symm
-  have e1 : (live cls (rebalance cls initial)).all specRange = true :=
-    List.all_eq_true.2 fun p hp => (specRange_iff p).2 (float_range' f32_rounding h p hp)
-  have e2 : (live cls (rebalance cls initial)).all specZero = true :=
-    List.all_eq_true.2 fun p hp => (specZero_iff p).2 (float_zero_iff' f32_rounding h p hp)
-  have e3 : ((live cls (rebalance cls initial)).all fun p =>
-      (live cls (rebalance cls initial)).all fun q => specOrder p q) = true :=
-    List.all_eq_true.2 fun p hp => List.all_eq_true.2 fun q hq =>
-      (specOrder_iff p q).2 (float_order' f32_rounding h hs p hp q hq)
-  unfold oracle
-  simp only [ne_eq, hl, not_true_eq_false, if_false, e1, e2, e3, Bool.not_true, Bool.false_eq_true]
-  split <;> simp
+/-- **E3**: under `WFIn` and `256·lcm < 2^24` the binary32 model of `RebalanceWeight` meets
+the whole Spec (range, zero-iff, order, share). -/
+theorem f32_oracle {cls : List Cluster} {initial : Int} (h : WFIn cls initial) (hs : SmallLcm cls) :
+    oracle cls (rebalance cls initial) = none := by
+  refine oracle_none (rebalanceWith_length _ _ _).symm ?_ ?_ ?_ ?_
+  · intro p hp; exact (specRange_iff p).2 (float_range' f32_rounding h p hp)
+  · intro p hp; exact (specZero_iff p).2 (float_zero_iff' f32_rounding h p hp)
+  · intro p hp q hq; exact (specOrder_iff p q).2 (float_order' f32_rounding h hs p hp q hq)
+  · intro p hp q hq
+    exact (specShare_iff p q).2 fun hr => float_share_weak' f32_rounding h p hp q hq hr.1 hr.2
+
+example : oracle wit (rebalance wit 75) = none := f32_oracle wit_wf wit_small.1
 
 /-- non-vacuity of E3 on the witness input and on a benign one -/
 example : live wit (rebalance wit 75) = [(⟨229, 157⟩, 250), (⟨241, 162⟩, 256), (⟨17, 162⟩, 18)] := by
